@@ -137,3 +137,25 @@ Definition needs_inode (c : call) : bool :=
   match c with CCreate _ _ _ | CMkdir _ _ | CSymlink _ _ _ => true | _ => false end.
 Definition nospace_plausible (c : call) (free_blocks free_inodes : N) : bool :=
   (free_blocks <? need_blocks c) || (needs_inode c && (free_inodes =? 0)).
+
+(* ---------- R-cache: what the server holds in memory agrees with its logical disk ---------- *)
+(* a cached inode = the 128 bytes of its disk inode *)
+Definition cached_inode_ok (sz : N) (d : disk) (i : N) (enc : bytes) : bool :=
+  bytes_eqb enc (inode_bytes (mk_layout sz) d i).
+
+(* a name cache = the occupied slots of the directory (name, inode number, byte offset of the slot),
+   "." and ".." included *)
+Definition dir_slot_list (sz : N) (d : disk) (i : N) : list (name * N * N) :=
+  let l := mk_layout sz in
+  let ip := read_inode l d i in
+  let '(leaves, _) := inode_blocks d ip in
+  let slots := dir_slots d (leaf_map leaves) (i_size ip) in
+  omap (fun ks => match snd ks with Some (n, j) => Some (n, j, N.of_nat (fst ks) * DIRENTSZ) | None => None end)
+       (imap (fun k s => (k, s)) slots).
+Definition triple_eqb (a b : name * N * N) : bool :=
+  bytes_eqb (fst (fst a)) (fst (fst b)) && (snd (fst a) =? snd (fst b)) && (snd a =? snd b).
+Definition name_cache_ok (sz : N) (d : disk) (i : N) (ents : list (name * N * N)) : bool :=
+  let want := dir_slot_list sz d i in
+  (length ents =? length want)%nat &&
+  forallb (fun e => existsb (triple_eqb e) want) ents &&
+  forallb (fun e => existsb (triple_eqb e) ents) want.
